@@ -101,6 +101,16 @@ def main():
 def finish(meta, name, diff, demo, notes, ok):
     d = os.path.join(VERIF, "seeded" if ok else "seeded-rejected", name)
     os.makedirs(d, exist_ok=True)
+    old = os.path.join(d, "meta.json")
+    hist = []
+    if os.path.exists(old):
+        try:
+            hist = json.load(open(old)).get("history", [])
+        except Exception:
+            hist = []
+    rc, head = sh(["git", "-C", VERIF, "rev-parse", "--short", "HEAD"])
+    hist.append({"round": "run at %s, /verif commit %s" % (meta.get("at"), head.strip()), "detected": meta.get("detected"), "checks": meta.get("checks")})
+    meta["history"] = hist
     shutil.copy(diff, os.path.join(d, "patch.diff"))
     if os.path.exists(demo):
         shutil.copy(demo, os.path.join(d, os.path.basename(demo)))
